@@ -595,9 +595,51 @@ fn expansion_errors_in_redirection_operands(ctx: &Ctx) -> u64 {
     n
 }
 
+// (h) assignment errors — every means by which the shell itself assigns to a variable, applied to
+// a read-only one (`r`) or, for the forms that only assign to an unset variable, a read-only unset
+// one (`u`): plain and prefixed assignments, the `=` / `:=` switches, every assigning operator of
+// arithmetic expansion (`=`, compound assignments, prefix and postfix `++` / `--`), the `for` loop
+// variable — in a simple command's word, an assignment value, a redirection operand and a `case`
+// subject, errexit off and on: the shell stops, nothing runs afterwards, the EXIT trap runs once,
+// the exit status is non-zero.
+fn assignment_errors(ctx: &Ctx) -> u64 {
+    let forms = [
+        "r=2", "r=2 p a", "r=2 :", ": ${u=x}", ": ${u:=x}", ": \"${u:=x}\"", ": $((r=2))", ": $((r+=1))", ": $((r-=1))", ": $((r*=2))", ": $((r<<=1))", ": $((r|=4))", ": $((++r))", ": $((--r))", ": $((r++))",
+        ": $((r--))", ": \"$((r++))\"", "v=$((r++))", "v=$((r=2))", "p a >/tmp/o$((r++))", "case $((r--)) in (*) p c;; esac", ": $((1 ? r++ : 0))", ": $((r++ + 1))", ": $(( (r++) ))", "for r in a b; do p l; done",
+    ];
+    let mut n = 0;
+    for cmd in forms {
+        for errexit in [false, true] {
+            for (pre, post) in [("", ""), ("f() { ", "; }; f"), ("{ ", "; }")] {
+                let script = format!("{}readonly r=1 u\ntrap 'p x' EXIT\n{pre}{cmd}{post}\np after\n", if errexit { "set -e\n" } else { "" });
+                let r = run_once(&Setup::script(&script), &Default::default());
+                n += 1;
+                let tr = r.all_trace();
+                let exits = tr.iter().filter(|t| t.starts_with("x:")).count();
+                let later: Vec<&String> = tr.iter().filter(|t| !t.starts_with("x:")).collect();
+                let problem = if r.panic.is_some() {
+                    Some(("panic", format!("{:?}", r.panic)))
+                } else if !later.is_empty() {
+                    Some(("assignment-error-ran-on", format!("commands ran after the assignment to a read-only variable: {later:?}")))
+                } else if exits != 1 {
+                    Some(("exit-trap-count", format!("the EXIT trap ran {exits} times")))
+                } else if !matches!(r.end, End::Exited(s) if s != 0) {
+                    Some(("status", format!("the shell ended {:?}, expected a non-zero exit status", r.end)))
+                } else {
+                    None
+                };
+                if let Some((key, what)) = problem {
+                    ctx.violation(&format!("c10:{key}"), &format!("`{pre}{cmd}{post}` with r and u read-only (errexit {errexit}): {what}; stderr {:?}", r.stderr.lines().next()), json!({"script": script}));
+                }
+            }
+        }
+    }
+    n
+}
+
 pub fn run(tier: Tier) -> i32 {
     let ctx = Ctx::new("C10", "exploration", tier);
-    let nameless = nameless_redirection_errors(&ctx) + errexit_in_trap_actions(&ctx) + expansion_errors_in_redirection_operands(&ctx) + assignment_only_commands(&ctx);
+    let nameless = assignment_errors(&ctx) + nameless_redirection_errors(&ctx) + errexit_in_trap_actions(&ctx) + expansion_errors_in_redirection_operands(&ctx) + assignment_only_commands(&ctx);
     let dscripts = dominance_scripts();
     let d_runs = AtomicU64::new(0);
     let d_entered = AtomicU64::new(0);
